@@ -252,13 +252,18 @@ class ExcelInPython:
         )
 
     def _match(self, lookup_value, lookup_array: List, match_type: int = 0):
-        # whole numbers and decimals are one kind of value: 20 is found by 20.0
+        # whole numbers and decimals are one kind of value: 20 is found by 20.0; a logical value is no number
         lookup_value_type = (int, float) if type(lookup_value) in (int, float, self.EmptyCell) else type(lookup_value)
+
+        def other_kind(value):
+            if isinstance(value, bool) != isinstance(lookup_value, bool):
+                return True
+            return isinstance(value, self.EmptyCell) or not isinstance(value, lookup_value_type)
 
         match match_type:
             case 0:
                 for index, value in enumerate(lookup_array):
-                    if isinstance(value[0], self.EmptyCell) or not isinstance(value[0], lookup_value_type):
+                    if other_kind(value[0]):
                         continue
                     if value[0].lower() == lookup_value.lower() if isinstance(value[0], str) else value[0] == lookup_value:
                         return index + 1
@@ -266,7 +271,7 @@ class ExcelInPython:
             case match_type if match_type > 0:
                 last_valid_index = '#N/A'
                 for index, value in enumerate(lookup_array):
-                    if isinstance(value[0], self.EmptyCell) or not isinstance(value[0], lookup_value_type):
+                    if other_kind(value[0]):
                         continue
                     if value[0].lower() <= lookup_value.lower() if isinstance(value[0], str) else value[0] <= lookup_value:
                         last_valid_index = index + 1
@@ -276,7 +281,7 @@ class ExcelInPython:
             case match_type if match_type < 0:
                 last_valid_index = '#N/A'
                 for index, value in enumerate(lookup_array):
-                    if isinstance(value[0], self.EmptyCell) or not isinstance(value[0], lookup_value_type):
+                    if other_kind(value[0]):
                         continue
                     if value[0].lower() >= lookup_value.lower() if isinstance(value[0], str) else value[0] >= lookup_value:
                         last_valid_index = index + 1
@@ -322,6 +327,10 @@ class ExcelInPython:
         for row in table_array:
             # a blank cell is no key (a table given as whole columns ends with blank rows)
             if isinstance(row[0], self.EmptyCell):
+                continue
+
+            # a logical value is no number: TRUE is not found at 1
+            if isinstance(row[0], bool) != isinstance(lookup_value, bool):
                 continue
 
             if not isinstance(row[0], lookup_value_type):
